@@ -542,7 +542,9 @@ impl World {
         while let Some(t) = self.targets.pop() {
             let p = t.into_inner();
             if !p.is_null() {
-                drop(unsafe { Box::from_raw(p) });
+                // (a member's destructor may panic: panicky tags)
+                let b = unsafe { Box::from_raw(p) };
+                let _ = std::panic::catch_unwind(std::panic::AssertUnwindSafe(move || drop(b)));
             }
         }
         let cells = std::mem::take(&mut *self.cells.lock().unwrap());
